@@ -591,4 +591,10 @@ example :
     (sv.ids 0 .write, sv.ids 1 .write) = ([1, 5, 9, 11], [1, 7, 9, 13]) := by
   decide +kernel
 
+/-- **fact_wait_on_every_limited_throttle**: as regenerated from `common.py`, `ThrottleStreamIO.wait` starts a wait for
+    EVERY limited throttle of the stream and awaits them all - what `tightest_governs` and `shared_sum` start from (a
+    stream that waited only for its numerically smallest limit would let a looser, SHARED limit be overrun by the sum of
+    the connections: seeded changes C15_B, C15_K, C15_S) -/
+theorem fact_wait_on_every_limited_throttle : Generated.throttleWaitOnEveryLimited = true := by decide
+
 end C15
